@@ -1533,6 +1533,15 @@ class FlowIR(object):
 
         component['references'] = new_references
 
+        # VV: A platform `override` block which restates the references is layered on top of the component when the
+        # replicated FlowIR is read back (get_component_configuration): split its (rewritten) references too
+        for platform_override in (component.get('override') or {}).values():
+            if isinstance(platform_override, dict) and isinstance(platform_override.get('references'), list):
+                split_references = []
+                for ref in platform_override['references']:
+                    split_references.extend(ref.split())
+                platform_override['references'] = split_references
+
         return component
 
     @classmethod
@@ -1550,6 +1559,12 @@ class FlowIR(object):
         component['workflowAttributes'] = workflowAttributes
 
         component['name'] = '%s%d' % (component['name'], replica)
+
+        # VV: The variables of a platform `override` block are layered on top of those of the component
+        # (get_component_variables): a `replica` defined there must not hide the index of this replica
+        for platform_override in (component.get('override') or {}).values():
+            if isinstance(platform_override, dict) and 'replica' in (platform_override.get('variables') or {}):
+                platform_override['variables']['replica'] = replica
 
         translation = {}
         owner_stage = component.get('stage', 0)
